@@ -159,10 +159,21 @@ Lemma hex_decode_spec : forall h,
   end.
 Proof. intro h. unfold hex_decode. destruct (bytes_of_hex h); reflexivity. Qed.
 
-(* the parser's verdict on a line of the handshake (body ++ CR LF) *)
+(* a mechanism name the code does not know is answered like a missing one, in every state *)
+Lemma sstep_unknown_mech : forall x p m i,
+  (lbeq m (B "EXTERNAL") || lbeq m (B "ANONYMOUS")) = false ->
+  sstep x p (CAuth (Some m) i) = sstep x p (CAuth None IdNone).
+Proof.
+  intros x p m i H. apply orb_false_iff in H. destruct H as [H1 H2].
+  destruct p; cbn [sstep]; try reflexivity.
+  destruct (x_mech x); cbn [mech_name]; rewrite ?H1, ?H2; reflexivity.
+Qed.
+
+(* the parser's verdict on a line of the handshake (body ++ CR LF): on a well-formed line the command it returns
+   drives the ideal server exactly like the specification's reading of the line *)
 Lemma command_of_line : forall body,
   match command_of_str (body ++ CRLF) with
-  | Ok cmd => well_formed body = true /\ cmd_abs cmd = classify body
+  | Ok cmd => well_formed body = true /\ forall x p, sstep x p (classify body) = sstep x p (cmd_abs cmd)
   | Err _ => well_formed body = false
   | Panic _ => False
   end.
@@ -172,13 +183,16 @@ Proof.
   destruct (lbeq w (B "AUTH")) eqn:E1.
   { apply lbeq_eq in E1. subst w.
     destruct args as [|m rest]; [split; reflexivity|].
-    pose proof (mech_of_str_spec m) as Hm.
-    destruct (mech_of_str m) as [mm|e|p]; cbn [bind]; [|rewrite Hm; reflexivity|contradiction].
-    destruct Hm as [Hm1 Hm2]. rewrite Hm2. cbn [andb nth_error].
-    destruct rest as [|h rest']; [split; [reflexivity | subst; reflexivity]|].
-    pose proof (hex_decode_spec h) as Hh. unfold hex_ok, ident_of.
-    destruct (hex_decode h) as [bb|e|p]; cbn [bind]; [|rewrite Hh; reflexivity|contradiction].
-    rewrite Hh. split; [reflexivity | subst; reflexivity]. }
+    pose proof (mech_of_str_spec m) as Hm. cbn [nth_error].
+    destruct rest as [|h rest'].
+    - split; [reflexivity|]. intros x p. unfold ident_of.
+      destruct (mech_of_str m) as [mm|e|pp]; [destruct Hm as [-> _]; reflexivity | | contradiction].
+      apply sstep_unknown_mech. exact Hm.
+    - pose proof (hex_decode_spec h) as Hh. unfold hex_ok, ident_of.
+      destruct (hex_decode h) as [bb|e|pp]; cbn [bind]; [|rewrite Hh; reflexivity|contradiction].
+      rewrite Hh. split; [reflexivity|]. intros x p.
+      destruct (mech_of_str m) as [mm|e|pp]; [destruct Hm as [-> _]; reflexivity | | contradiction].
+      apply sstep_unknown_mech. exact Hm. }
   destruct (lbeq w (B "CANCEL")) eqn:E2.
   { apply lbeq_eq in E2. subst w. split; reflexivity. }
   destruct (lbeq w (B "BEGIN")) eqn:E3.
